@@ -162,6 +162,8 @@ func (l *peerLedger) ClearPeerWantlist(p peer.ID) {
 	for c := range cids {
 		l.removePeerFromCid(p, c)
 	}
+	// Keep the (now empty) map so its capacity can be reused.
+	clear(cids)
 }
 
 func (l *peerLedger) PeerDisconnected(p peer.ID) {
